@@ -4,9 +4,20 @@ import sys
 import numpy as np
 from hypothesis import strategies as st
 
-from . import common, docs, draws, engine, model as M, sources, walk
+from . import common, docs, draws, engine, model as M, oracles as O, sources, walk
 from .common import Failure, Reporter
 from .decode import Layout
+
+
+class _Null:
+    def nontriv(self, *a):
+        pass
+
+    def count(self, *a, **k):
+        pass
+
+
+_NULL = _Null()
 
 PID = "C09"
 RULE = ("cases = scenario (S1 shipped | S2 generated incl. custom larger address bounds | S3 random document | S4 document with "
@@ -163,11 +174,18 @@ def run_case(case, rep, record=True):
                 continue
             act = h.choose(op)
             side, seed, draw = h.pick_seed(act, op[-2], op[-1])
-            np.random.seed(seed)
-            out1 = h.env.step(h.real_action(act))
-            np.random.seed(seed)
+            rec = h.exec_step(act, op[-2], op[-1])
+            out1 = rec.ret
+            np.random.seed(rec.seed)
             out2 = h2.env.step(h2.real_action(act))
             compare_1d_2d(h, out1[0], out2[0], f"step {act}")
+            # the observation rows must carry the entitled feature groups of the true state at the
+            # documented columns (mask oracle of C08 evaluated with the documented layout)
+            try:
+                O.c08(h, rec, None, _NULL)
+            except Failure as f:
+                raise Failure("C09:observation-row-layout", f"observation after {act} is not the documented-layout "
+                              f"mask of the state: {f.detail}", bucket="C09:observation-row-layout")
             # decoded dynamic part vs model, static part vs source
             pred = M.step(spec, h.mst, act, side)
             for hh in (h, h2):
